@@ -246,6 +246,12 @@ def _factor_long_intermediate(expr: e.Expr, itmd: list[EriOrbenergy],
                 # of the term: the sum over a target index can not be factored
                 if any(s in term.eri.target for s in contracted_itmd_indices):
                     continue
+                # each contracted index of the itmd needs its own index in the
+                # term: if it shares the index with another index of the itmd
+                # the term only holds a part of the sum (the 'diagonal')
+                if _contracted_indices_coincide(contracted_itmd_indices,
+                                                itmd_indices):
+                    continue
                 remainder_indices = set(remainder.idx)
                 if any(s in remainder_indices
                        for s in contracted_itmd_indices):
@@ -438,11 +444,18 @@ def _factor_short_intermediate(expr: e.Expr, itmd: EriOrbenergy,
 
         # a contracted index of the itmd has to be a contracted index of the
         # term: the sum over a target index can not be factored
+        # Additionally, each contracted index of the itmd needs its own index
+        # in the term: if it shares the index with another index of the itmd
+        # the term only holds a part of the sum (the 'diagonal')
         if variants is not None:
             variants = [
                 var for var in variants
                 if not any(var['sub'].get(s, s) in term.eri.target
                            for s in itmd_contracted_symbols)
+                and not _contracted_indices_coincide(
+                    [var['sub'].get(s, s) for s in itmd_contracted_symbols],
+                    [var['sub'].get(s, s) for s in itmd_default_symbols]
+                )
             ]
         if not variants:
             factored += term.expr
@@ -706,6 +719,17 @@ def _factor_mixed_prefactors(result: e.Expr, terms: list[e.Term], itmd_cls,
         intermediate_variants.clean_empty()
 
     return result, factored_successfully
+
+
+def _contracted_indices_coincide(contracted_itmd_indices: tuple,
+                                 itmd_indices: tuple) -> bool:
+    """
+    Whether two contracted indices of an intermediate or a contracted and
+    a target index of the intermediate are mapped onto the same index.
+    """
+    contracted = set(contracted_itmd_indices)
+    return len(contracted) != len(contracted_itmd_indices) or \
+        any(s in contracted for s in itmd_indices)
 
 
 def _build_factored_term(remainder: e.Expr, pref, itmd_cls,
